@@ -20,9 +20,9 @@
      l2cap / GATT server       an oracle ([l2cap_reply]) - what a data PDU is answered with
 
    The code is transcribed AS IT IS. Known defects that are part of this model (DESIGN.md section 7):
-     #18  handle_ll_control_data: instant checks of LL_CONNECTION_UPDATE_IND / LL_CHANNEL_MAP_IND ([instant_passed_update],
-          [instant_passed_map])
-     #18  handle_phy_request: no instant check at all for LL_PHY_UPDATE_IND
+     #18  handle_ll_control_data: instant checks of LL_CONNECTION_UPDATE_IND / LL_CHANNEL_MAP_IND / LL_PHY_UPDATE_IND: REPAIRED
+          (branch fix/C21-instant-checks); [instant_passed] is the repaired code, used for all three; an applied procedure
+          resets last_latency_ ([handle_pending_ll_control])
      #19  check_timing_paremeters: REPAIRED (branch fix/C22-connect-timing-ranges); [check_timing] is the repaired code
      #23  transmit_pending_control_pdus: LL_PHY_REQ sent without arming procedure_timeout_ ([transmit_pending_control_pdus])
      #24  handle_encryption_pdus: LL_START_ENC_RSP of size 1 sets is_encrypted( true ) unconditionally
@@ -308,6 +308,16 @@ Definition l2cap_reply (body : list N) : l2result :=
        then L2Reply (Some [3; 0; 4; 0; 3; 23; 0])
        else L2Reply None.
 
+(* The same for the GATT server of the variant with encryption support (harness: secret_server, one characteristic
+   with requires_encryption, value handle 3, value 0x17), given connection_data_.is_encrypted(): the ATT Read Request
+   of handle 3 is answered with the value on an encrypted link and with Error Response( insufficient authentication )
+   otherwise (property C28's probe). *)
+Definition att_read_secret : list N := [3; 0; 4; 0; 10; 3; 0].
+Definition l2cap_reply_enc (encrypted : bool) (body : list N) : l2result :=
+  if bytes_eqb body att_read_secret
+  then L2Reply (Some (if encrypted then [2; 0; 4; 0; 11; 23] else [5; 0; 4; 0; 1; 10; 3; 0; 5]))
+  else l2cap_reply body.
+
 (* ------------------------------------------------------------------------------------------ timing parameters *)
 (* check_timing_paremeters() AFTER the repair fix/C22-connect-timing-ranges (DESIGN.md section 7 #19): latency and
    interval range are checked first, then the window size 1.25 ms .. min( 10 ms, interval ), the supervision timeout
@@ -425,7 +435,7 @@ Definition valid_connect_request (c : cfg) (hdr0 : N) (body : list N) : bool :=
 (* ------------------------------------------------------------------------------------------ disconnecting *)
 (* link_layer_security_impl::reset_encryption() *)
 Definition reset_encryption (c : cfg) (s : lstate_t) : lstate_t * list item :=
-  if c_enc c then (upd_sc s (fun x => set_is_enc x false), [IEncRx false; IEncTx false]) else (s, []).
+  if c_enc c then (upd_sc s (fun x => set_is_enc (set_enc_prog (set_has_key x false) false) false), [IEncRx false; IEncTx false]) else (s, []).
 
 (* phy_update_request_impl::reset_phy *)
 Definition reset_phy (c : cfg) : list item := if c_phy c then [IPhy 1 1] else [].
@@ -482,10 +492,14 @@ Definition handle_cpr (c : cfg) (s : lstate_t) (body : list N) : option (list N)
 
 Inductive ll_result := GoAhead | DoDisconnect.
 
-(* the two instant checks of handle_ll_control_data, as written (defect #18) *)
-Definition instant_passed_update (inst evc : N) : bool :=
-  bit (u16 (inst + 65536 - evc + 1)) 32768 || (inst =? evc + 1).     (* evc + 1 is an int: no wrap at 65535 *)
-Definition instant_passed_map (inst evc : N) : bool := bit (u16 (inst + 65536 - evc)) 32768.
+(* instant_passed( instant ) AFTER the repair fix/C21-instant-checks (defect #18): distance = uint16( instant - counter );
+   distance == 0 || distance >= 32767. Used by all three instant checks of handle_ll_control_data.
+   Before the repair: update  bit (u16 (inst + 65536 - evc + 1)) 32768 || (inst =? evc + 1),  map  bit (u16 (inst + 65536 - evc)) 32768,
+   LL_PHY_UPDATE_IND no check. *)
+Definition instant_passed (inst evc : N) : bool :=
+  let d := u16 (inst + 65536 - evc) in (d =? 0) || (32767 <=? d).
+Definition instant_passed_update (inst evc : N) : bool := instant_passed inst evc.
+Definition instant_passed_map (inst evc : N) : bool := instant_passed inst evc.
 
 Definition valid_phy_encoding (x : N) : bool := (x =? 0) || (x =? 1) || (x =? 2).
 
@@ -593,26 +607,32 @@ Definition handle_ll_control (c : cfg) (s : lstate_t) (body : list N) : lstate_t
       (commit_ctrl s1 (GenLL.LL_ENC_RSP :: skds_bytes ++ ivs_bytes),
        [IFindKey (rd16 body 9) (rd64 body 1); ISetup (if known then toy_key else zero_key) (rd64 body 11) (rd32 body 19)], GoAhead)
   | KStartEncRsp =>
-      (* defect #24: no check that LL_START_ENC_REQ was sent *)
-      let changed := negb (is_enc (sc s)) in
-      let s1 := upd_sc s (fun x => set_is_enc x true) in
-      let s2 := encryption_changed c s1 changed in
-      (commit_ctrl s2 [GenLL.LL_START_ENC_RSP], [IEncTx true], GoAhead)
+      (* defect #24 REPAIRED (fix/C28-start-enc-rsp-state): only accepted as the answer to a LL_START_ENC_REQ that was
+         sent for a key found by the LL_ENC_REQ of this procedure ( has_key_ && !encryption_in_progress_ ); otherwise
+         handle_encryption_pdus() returns false: the chain goes on to the final else-if *)
+      if has_key (sc s) && negb (enc_prog (sc s)) then
+        let changed := negb (is_enc (sc s)) in
+        let s1 := upd_sc s (fun x => set_is_enc (set_has_key x false) true) in
+        let s2 := encryption_changed c s1 changed in
+        (commit_ctrl s2 [GenLL.LL_START_ENC_RSP], [IEncTx true], GoAhead)
+      else (commit_ctrl s [GenLL.LL_UNKNOWN_RSP; opcode], [], GoAhead)
   | KPauseEncReq =>
       let changed := is_enc (sc s) in
-      let s1 := upd_sc s (fun x => set_is_enc x false) in
+      let s1 := upd_sc s (fun x => set_is_enc (set_has_key x false) false) in
       let s2 := encryption_changed c s1 changed in
       (commit_ctrl s2 [GenLL.LL_PAUSE_ENC_RSP], [IEncRx false], GoAhead)
   | KPauseEncRsp =>
       let changed := is_enc (sc s) in
-      let s1 := upd_sc s (fun x => set_is_enc x false) in
+      let s1 := upd_sc s (fun x => set_is_enc (set_has_key x false) false) in
       (encryption_changed c s1 changed, [IEncTx false], GoAhead)
   | KPhyReq => (commit_ctrl s [GenLL.LL_PHY_RSP; 3; 3], [], GoAhead)
   | KPhyUpdate =>
       if valid_phy_encoding (byte body 1) && valid_phy_encoding (byte body 2) then
         if (byte body 1 =? 0) && (byte body 2 =? 0)
         then (push_event c s (EvPhy 0 0), [], GoAhead)
-        else (set_def_instant (set_deferred s (Some body)) (rd16 body 3), [], GoAhead)   (* defect #18: no instant check *)
+        else if instant_passed (rd16 body 3) evc     (* repaired (fix/C21-instant-checks); before: no instant check *)
+        then (set_disc_reason (set_def_instant (set_deferred s (Some body)) (rd16 body 3)) GenLL.connection_instant_passed, [], DoDisconnect)
+        else (set_def_instant (set_deferred s (Some body)) (rd16 body 3), [], GoAhead)
       else (* handle_phy_request() returns false: the chain goes on to the final else-if *)
         (commit_ctrl s [GenLL.LL_UNKNOWN_RSP; opcode], [], GoAhead)
   | KUnknown => (commit_ctrl s [GenLL.LL_UNKNOWN_RSP; opcode], [], GoAhead)
@@ -625,7 +645,8 @@ Definition handle_pending_ll_control (c : cfg) (s : lstate_t) : option (lstate_t
   | Some body =>
       if def_instant s =? evc (cs s) then
         let opcode := byte body 0 in
-        let s0 := set_deferred s None in
+        (* repaired (fix/C21-instant-checks): disarmable_connection_state_last_latency( 1 ) once a procedure is applied *)
+        let s0 := upd_cs (set_deferred s None) (fun x => if disarmable c then set_last_lat x 1 else x) in
         if opcode =? GenLL.LL_CHANNEL_MAP_REQ then
           let '(ch, _) := ChanMapModel.reset_impl (chan s0) (slice body 1 5) (ChanMapModel.hop_ (chan s0)) in
           Some (set_chan s0 ch, [], GoAhead)
@@ -669,7 +690,7 @@ Fixpoint handle_received_data (fuel : nat) (c : cfg) (s : lstate_t) : lstate_t *
                   end
                 else (s, [], GoAhead)
               else if (llid =? GenLL.lld_data_pdu_code) && negb (lstate_eqb (st s) Disconnecting) then
-                match l2cap_reply body with
+                match (if c_enc c then l2cap_reply_enc (is_enc (sc s)) body else l2cap_reply body) with
                 | L2Drop => handle_received_data fuel' c (pop s)
                 | L2Reply r =>
                     if tx_buffer_available s then
